@@ -39,7 +39,21 @@ std::string gen_text(Src &s, int tgt) {
     const auto &d = dict(tgt);
     std::string t;
     size_t n = (size_t)s.range(0, 60);
-    for (size_t i = 0; i < n && !s.exhausted(); i++) { if (s.chance(1, 8)) t.push_back((char)s.range(1, 255)); else t += d[s.range(0, (long)d.size() - 1)]; }
+    for (size_t i = 0; i < n && !s.exhausted(); i++) {
+        if (s.chance(1, 8)) t.push_back((char)s.range(1, 255));
+        else if (tgt == 5 && s.chance(1, 25)) {
+            // an include directive line padded to about the size of the path buffer
+            t += "\n@INCLUDE inc1.conf"; t.append((size_t)s.range(4060, 4100), ' '); t += "\n";
+        } else if (tgt == 6 && s.chance(1, 25)) {
+            // a directive line of about the parser's line-buffer size
+            t += "\nOpt "; t.append((size_t)s.range(4070, 4110), s.boolean() ? 'a' : '"'); t += "\n";
+        } else if (s.chance(1, 40)) {
+            // over-long lines: padding whose length sits around the parsers' line / path buffer sizes
+            static const size_t edge[] = {1024, 4096, 4096, 4096, 8192};
+            size_t len = edge[s.range(0, 4)] - (size_t)s.range(0, 24) + 4;
+            t.append(len, s.boolean() ? ' ' : "a/."[s.range(0, 2)]);
+        } else t += d[s.range(0, (long)d.size() - 1)];
+    }
     return t;
 }
 
